@@ -486,9 +486,9 @@ class DR_Results(OrderedDict):
                 .ext    : float64 ndarray: (12, 2)
                 .ext_x  : None
                 .hist   : float64 ndarray: (1, 12, 10001)
-                .maxcase: None
+                .maxcase: [n=12]: ['Sep 2', 'Sep 2', 'Sep 2', ...]
                 .mx_x   : float64 ndarray: (12, 1)
-                .mincase: None
+                .mincase: [n=12]: ['Sep 2', 'Sep 2', 'Sep 2', ...]
                 .mn_x   : float64 ndarray: (12, 1)
                 .mission: 'Rocket / Spacecraft VLC'
                 .mn     : float64 ndarray: (12, 1)
@@ -574,6 +574,10 @@ class DR_Results(OrderedDict):
                 newsns.mx_x[:, 0] = sns.mx_x[:, j]
                 newsns.mn_x[:, 0] = sns.mn_x[:, j]
                 newsns.ext_x = np.column_stack((newsns.mx_x, newsns.mn_x))
+                # the only case is the extreme case for every row
+                # (needed by form_extreme with doappend = 1 or 3)
+                newsns.maxcase = newsns.ext.shape[0] * [case]
+                newsns.mincase = newsns.maxcase[:]
 
                 # check for hist, time, psd, freq
                 for item in ("hist", "time", "psd", "freq"):
